@@ -534,6 +534,41 @@ func (t *tables) valuePaths(v ssa.Value, depth int) ([][]keyElem, bool) {
 	switch x := v.(type) {
 	case *ssa.Parameter:
 		if isFastjsonValuePtr(x.Type()) {
+			// the parameter of a local closure that the enclosing function calls directly stands for the arguments of
+			// those calls (appendLoaded := func(v *fastjson.Value) {…}; appendLoaded(val)), not for the document root
+			if fn := x.Parent(); fn != nil && fn.Parent() != nil {
+				idx := -1
+				for i, p := range fn.Params {
+					if p == x {
+						idx = i
+					}
+				}
+				var sites []*ssa.Call
+				for _, b := range fn.Parent().Blocks {
+					for _, in := range b.Instrs {
+						call, ok := in.(*ssa.Call)
+						if !ok {
+							continue
+						}
+						if mc, ok := call.Common().Value.(*ssa.MakeClosure); ok && mc.Fn == fn {
+							sites = append(sites, call)
+						}
+					}
+				}
+				if len(sites) > 0 && idx >= 0 {
+					var out [][]keyElem
+					got := false
+					for _, cs := range sites {
+						if idx < len(cs.Common().Args) {
+							if ps, ok := t.valuePaths(cs.Common().Args[idx], depth+1); ok {
+								got = true
+								out = append(out, ps...)
+							}
+						}
+					}
+					return out, got
+				}
+			}
 			return [][]keyElem{nil}, true
 		}
 		return nil, false
